@@ -112,7 +112,7 @@ fn is_nan_pattern(bits: u64) -> bool {
     (bits & 0x7ff0_0000_0000_0000) == 0x7ff0_0000_0000_0000 && (bits & 0x000f_ffff_ffff_ffff) != 0
 }
 
-//# harness mkd_ieee754_all tier=quick label=complete props=C19 fn=rusty_variant/src/bits.rs::f64_to_bytes timeout=400
+//# harness mkd_ieee754_all tier=quick label=complete props=C19 fn=rusty_variant/src/bits.rs::f64_to_bytes timeout=900
 harness!(mkd_ieee754_all, 10, {
     let pattern = vs::u64();
     vs::assume(!is_nan_pattern(pattern));
@@ -130,7 +130,7 @@ harness!(mkd_ieee754_all, 10, {
     reach!(x == f64::NEG_INFINITY);
 });
 
-//# harness cvd_ieee754_all tier=quick label=complete props=C19 fn=rusty_variant/src/bits.rs::bytes_to_f64 timeout=400
+//# harness cvd_ieee754_all tier=quick label=complete props=C19 fn=rusty_variant/src/bits.rs::bytes_to_f64 timeout=900
 harness!(cvd_ieee754_all, 10, {
     let pattern = vs::u64();
     vs::assume(!is_nan_pattern(pattern));
@@ -146,7 +146,7 @@ harness!(cvd_ieee754_all, 10, {
     reach!(x == f64::INFINITY);
 });
 
-//# harness mkd_cvd_roundtrip tier=quick label=complete props=C19 fn=rusty_variant/src/bits.rs::bytes_to_f64 timeout=400
+//# harness mkd_cvd_roundtrip tier=quick label=complete props=C19 fn=rusty_variant/src/bits.rs::bytes_to_f64 timeout=900
 harness!(mkd_cvd_roundtrip, 10, {
     let x = vs::f64();
     vs::assume(!x.is_nan());
@@ -159,7 +159,7 @@ harness!(mkd_cvd_roundtrip, 10, {
     reach!(x == 0.1);
 });
 
-//# harness cvd_mkd_roundtrip tier=quick label=complete props=C19 fn=rusty_variant/src/bits.rs::f64_to_bytes timeout=400
+//# harness cvd_mkd_roundtrip tier=quick label=complete props=C19 fn=rusty_variant/src/bits.rs::f64_to_bytes timeout=900
 harness!(cvd_mkd_roundtrip, 10, {
     let pattern = vs::u64();
     vs::assume(!is_nan_pattern(pattern));
